@@ -107,7 +107,10 @@ def sign_cases_of_path(conds, quantities):
     for e, op in conds:
         ident = identify(e, quantities, gens)
         if ident is None:
-            raise KeyError(e)
+            got = _sign_cases_by_points(conds, quantities)
+            if got is None:
+                raise KeyError(e)
+            return got
         k, c = ident
         sat = SAT[op]
         if c < 0:
@@ -115,6 +118,36 @@ def sign_cases_of_path(conds, quantities):
         allowed = {t for t in allowed if t[k] in sat}
         if op == '==':
             gens.append(e)
+    return allowed
+
+
+def _sign_cases_by_points(conds, quantities):
+    """Sign tuples of the quantities realised by some small integer point satisfying every path
+    condition - used when a condition relates two quantities (rate == accel) instead of testing
+    the sign of one.  None if a condition mentions anything but the quantities' variables."""
+    import itertools
+    from fractions import Fraction
+    names = set()
+    for q in quantities:
+        names |= {a[1] for a in q.all_atoms() if a[0] == 'v'}
+        if any(a[0] == 'f' for a in q.all_atoms()):
+            return None
+    for e, _ in conds:
+        if any(a[0] == 'f' for a in e.all_atoms()) or not \
+                {a[1] for a in e.all_atoms() if a[0] == 'v'} <= names:
+            return None
+    names = sorted(names)
+    if len(names) > 4:
+        return None
+    sgn = lambda x: (x > 0) - (x < 0)
+    allowed = set()
+    for pt in itertools.product(range(-3, 4), repeat=len(names)):
+        asg = {nm: Fraction(v) for nm, v in zip(names, pt)}
+        try:
+            if all(_holds(e.evaluate(asg), op) for e, op in conds):
+                allowed.add(tuple(sgn(q.evaluate(asg)) for q in quantities))
+        except (ZeroDivisionError, KeyError, ValueError):
+            continue
     return allowed
 
 
